@@ -5196,7 +5196,13 @@ XPath::NodeTester::testNode(
             const XalanNode&        context,
             XalanNode::NodeType     nodeType) const
 {
-    if (nodeType != XalanNode::TEXT_NODE ||
+    // A Xerces-DOM-backed source tree has the DocumentType node among the
+    // children of the document.  The XPath data model has no such node.
+    if (nodeType == XalanNode::DOCUMENT_TYPE_NODE)
+    {
+        return eMatchScoreNone;
+    }
+    else if (nodeType != XalanNode::TEXT_NODE ||
         shouldStripSourceNode(static_cast<const XalanText&>(context)) == false)
     {
         return eMatchScoreNodeTest;
